@@ -169,6 +169,7 @@ func (sc *scenario) run() {
 		for _, one := range strings.Split(op, "|") {
 			f := strings.Fields(one)
 			var impl string
+			w.resetMax()
 			switch f[0] {
 			case "script":
 				s := w.servers[f[1]]
@@ -267,6 +268,8 @@ func (sc *scenario) run() {
 			}
 			if impl == "hang" || impl == "panic" {
 				alive = false
+			} else if f[0] != "script" {
+				impl += fmt.Sprintf(" mp=%d", w.maxSeen())
 			}
 			if strings.Contains(impl, "act=0") {
 				alive = false
